@@ -11,7 +11,7 @@ def run(ctx):
     tabs = I.load_tables(REPO)
     I.release_pairing(ctx, tabs)
     from cfront import helpers as H
-    H.run(ctx, tabs, names=["ShroudStrAlloc", "ShroudStrFree", "ShroudStrArrayAlloc", "ShroudStrArrayFree"])
+    H.run(ctx, tabs, names=["ShroudStrAlloc", "ShroudStrFree", "ShroudStrArrayAlloc", "ShroudStrArrayFree", "copy_string", "copy_array"])
     ctx.trusted.append("mini-C front end for the allocation helpers: every block allocated is large enough for every write, "
                        "freed exactly once (free of a live malloc block), int ranges checked; malloc assumed to succeed")
     ctx.trusted += [
